@@ -26,6 +26,7 @@ import (
 	"log/slog"
 	"strings"
 	"sync"
+	"sync/atomic"
 	"time"
 )
 
@@ -51,6 +52,10 @@ type ManagedLock struct {
 	Name         string
 	lastAccessed time.Time
 	deleted      bool
+	// Number of Manager calls currently using this lock. It is incremented by getLock() while the
+	// shard is locked and is checked by lockGc() with the shard write-locked, so a lock that is
+	// being locked, waited on or unlocked is never garbage collected.
+	users atomic.Int32
 	*Lock
 }
 
@@ -156,7 +161,8 @@ func (m *Manager) shutdown() {
 	m.isShutdown = true
 }
 
-// getLock gets or creates a lock with the given name
+// getLock gets or creates a lock with the given name. The caller must call done() on the returned
+// lock when it has finished using it.
 func (m *Manager) getLock(name string, create bool, size int32) (*ManagedLock, error) {
 	if size <= 0 {
 		return nil, ErrInvalidLockSize
@@ -180,6 +186,7 @@ func (m *Manager) getLock(name string, create bool, size int32) (*ManagedLock, e
 
 		// Existing lock found
 		l.lastAccessed = time.Now()
+		l.users.Add(1)
 		return l, nil
 
 	} else if !create {
@@ -187,8 +194,15 @@ func (m *Manager) getLock(name string, create bool, size int32) (*ManagedLock, e
 		return nil, ErrLockDoesNotExist
 	}
 
-	shard.locks[name] = NewManagedLock(name, m.ctx, size)
-	return shard.locks[name], nil
+	l = NewManagedLock(name, m.ctx, size)
+	l.users.Add(1)
+	shard.locks[name] = l
+	return l, nil
+}
+
+// done marks the end of the use of a lock returned by getLock()
+func (l *ManagedLock) done() {
+	l.users.Add(-1)
 }
 
 // Lock obtains a lock on the named lock. It blocks until a lock is obtained or is canceled or
@@ -205,6 +219,7 @@ func (m *Manager) Lock(name string, key string, size int32, ctx context.Context)
 	if err != nil {
 		return err
 	}
+	defer l.done()
 	if l.deleted {
 		panic(fmt.Sprintf("Tried to lock deleted lock %s", name))
 	}
@@ -224,6 +239,7 @@ func (m *Manager) TryLock(name string, key string, size int32) (bool, error) {
 	if err != nil {
 		return false, err
 	}
+	defer l.done()
 	if l.deleted {
 		panic(fmt.Sprintf("Tried to lock deleted lock %s", name))
 	}
@@ -246,6 +262,7 @@ func (m *Manager) Unlock(name string, key string) (bool, error) {
 	if l == nil {
 		return false, ErrLockDoesNotExist
 	}
+	defer l.done()
 	l.keyMtx.Lock()
 	if l.deleted {
 		l.keyMtx.Unlock()
@@ -267,7 +284,7 @@ func (m *Manager) lockGc(minIdle time.Duration) {
 
 		for _, v := range shard.locks {
 			v.lockKeys()
-			if len(v.keys) == 0 && time.Since(v.lastAccessed) > minIdle {
+			if len(v.keys) == 0 && v.users.Load() == 0 && time.Since(v.lastAccessed) > minIdle {
 				v.deleted = true
 				delete(shard.locks, v.Name)
 				numDeleted++
